@@ -372,6 +372,14 @@ func (this *BWT) inverseBiPSIv2(src, dst []byte, count int) (uint, uint, error) 
 		return 0, 0, errors.New("Invalid input: corrupted BWT primary index")
 	}
 
+	// The primary indexes of the other chunks drive the loops of the decoding
+	// tasks: an out of range value would make them spin forever
+	for i := 1; i < GetBWTChunks(count); i++ {
+		if this.PrimaryIndex(i) > uint(count) {
+			return 0, 0, errors.New("Invalid input: corrupted BWT primary index")
+		}
+	}
+
 	freqs := [256]int{}
 	internal.ComputeHistogram(src[0:count], freqs[:], true, false)
 	buckets := make([]int, 65536)
